@@ -169,12 +169,9 @@ def obligations(tier, mirror_=False, tag=""):
                 for c in tri:
                     obs.append(mk(1, False, [a, b, c], mirror_, tag=tag))
     if tier == "thorough":
-        tri = [("populate", {"n": 1}), ("ref_assign", {}), ("append", {}), ("setitem_cp", {"pos": -1}), ("upd_coords_dec", {}), ("extend", {"n": 1}),
-               ("range_shape_ref", {"span": 2}), ("ilshift_f", {"n": 1})]
+        tri = [("populate", {"n": 1}), ("ref_assign", {}), ("append", {}), ("setitem_cp", {"pos": -1}), ("upd_coords_dec", {}), ("extend", {"n": 1})]
         for a in tri:
             for b in tri:
                 for c in tri:
                     obs.append(mk(1, mirror_, [a, b, c], mirror_, tag=tag))
-                    if not mirror_ and "range_shape_ref" not in (a[0], b[0], c[0]) and "ilshift_f" not in (a[0], b[0], c[0]):
-                        obs.append(mk(2, False, [a, b, c], mirror_, tag=tag))
     return obs
